@@ -25,3 +25,4 @@ static GLOBAL: alloctrack::Tracking = alloctrack::Tracking;
 pub mod c13;
 pub mod specbin;
 pub mod c03;
+pub mod c04;
